@@ -17,6 +17,7 @@ typedef struct ctxobj {
     ABT_thread bg;
 } ctxobj;
 static ctxobj X;
+static volatile int enumerating_on_ext;
 static long n_failures, n_success_despite_fault, n_ops_enumerated, n_faults_total;
 static int g_res_kinds;
 
@@ -169,7 +170,8 @@ static void take(snapshot *s)
         ABT_OK(ABT_thread_get_last_pool(X.blocked, &s->bpool));
         ABT_OK(ABT_xstream_get_rank(X.xs, &s->rank));
         ABT_OK(ABT_xstream_get_state(X.xs, &s->xstate));
-        ABT_OK(ABT_pool_get_size(X.pool2, &s->psize2));
+        if (!enumerating_on_ext) /* (the primary ULT goes in and out of pool2 while it waits) */
+            ABT_OK(ABT_pool_get_size(X.pool2, &s->psize2));
         ABT_OK(ABT_thread_get_state(X.blocked, &s->bstate));
         ABT_OK(ABT_thread_get_specific(X.blocked, X.key, &s->keyval));
         if (!X.concurrent) {
@@ -195,6 +197,8 @@ typedef struct op18 {
     void *nullh;
     int primary_ult_only;
     int upool; /* 1: needs the user-defined pool; 2: and calls its create_unit (which may fail) */
+    int on_ext; /* the whole enumeration runs on an external thread (its allocations never come
+                 * from a stream-local memory pool: every block is a malloc) */
 } op18;
 
 static void nop_fn(void *a)
@@ -457,6 +461,29 @@ static void u_key_set_many(void **h)
     for (int i = 0; i < nmany_keys; i++)
         ABT_OK(ABT_key_set(many_keys[i], NULL));
 }
+static int d_set_specific_many(void **h)
+{
+    /* keys of another work unit (the blocked ULT), set from wherever the caller runs */
+    int rc = ABT_SUCCESS, i;
+    for (i = 0; i < nmany_keys; i++) {
+        rc = ABT_thread_set_specific(X.blocked, many_keys[i], (void *)(uintptr_t)(0x200 + i));
+        if (rc != ABT_SUCCESS)
+            break;
+    }
+    for (int j = 0; j < i; j++) {
+        void *v = NULL;
+        ABT_OK(ABT_thread_get_specific(X.blocked, many_keys[j], &v));
+        SIM_CHECK(v == (void *)(uintptr_t)(0x200 + j), "fault:state-changed", "key %d of the blocked ULT lost its value after a later ABT_thread_set_specific failed", j);
+    }
+    *h = rc == ABT_SUCCESS ? (void *)many_keys : POISON;
+    return rc;
+}
+static void u_set_specific_many(void **h)
+{
+    (void)h;
+    for (int i = 0; i < nmany_keys; i++)
+        ABT_OK(ABT_thread_set_specific(X.blocked, many_keys[i], NULL));
+}
 static int d_migrate_request(void **h)
 {
     /* allocates the migration data of the blocked ULT on first use */
@@ -524,6 +551,8 @@ static const op18 OPS[] = {
     { "ABT_xstream_create_with_rank", d_xstream_create_with_rank, u_xstream, ABT_XSTREAM_NULL, 0, 0 },
     { "ABT_key_create", d_key_create, u_key, ABT_KEY_NULL, 0 },
     { "ABT_key_set(x24)", d_key_set_many, u_key_set_many, POISON, 0 },
+    { "ABT_thread_set_specific(x24)", d_set_specific_many, u_set_specific_many, POISON, 2, 0, 0 },
+    { "ABT_thread_set_specific(x24,ext)", d_set_specific_many, u_set_specific_many, POISON, 2, 0, 1 },
     { "ABT_thread_migrate_to_pool", d_migrate_request, u_none, POISON, 2 },
     { "ABT_mutex_create", d_mutex, u_mutex, ABT_MUTEX_NULL, 0 },
     { "ABT_mutex_attr_create", d_mutex_attr, u_mutex_attr, ABT_MUTEX_ATTR_NULL, 0 },
@@ -618,6 +647,16 @@ static void enumerate(const op18 *o)
         sim_count("c18.create_unit_failures", 1);
 }
 
+static const op18 *ext_op;
+static volatile int ext_op_done;
+static void ext_enumerate(void *arg)
+{
+    (void)arg;
+    enumerate(ext_op);
+    ext_op_done = 1;
+    sim_progress();
+}
+
 static void run_c18(void)
 {
     memset(&X, 0, sizeof X);
@@ -703,7 +742,17 @@ static void run_c18(void)
         if (o->primary_ult_only == 1 && X.populated)
             continue; /* replacing the caller's scheduler is exercised in the fresh runtime */
         sim_note("%s; ", o->name);
-        enumerate(o);
+        if (o->on_ext) {
+            ext_op = o;
+            ext_op_done = 0;
+            enumerating_on_ext = 1;
+            int tid = sim_thread_create(ext_enumerate, NULL);
+            while (!ext_op_done)
+                ABT_OK(ABT_thread_yield());
+            sim_thread_join(tid);
+            enumerating_on_ext = 0;
+        } else
+            enumerate(o);
     }
     follow_up("all");
     ABT_OK(ABT_thread_free(&revive_t));
